@@ -1,6 +1,7 @@
 """C08 — row equivariance and independence from irrelevant frame structure."""
 import json
 import math
+import re
 from fractions import Fraction
 
 import numpy as np
@@ -15,6 +16,16 @@ ASSUMPTIONS = [
     "the row index does not exist in the Lean model: index relabelling is decided by these runs only",
     "float sums are permutation invariant only up to rounding: parameters and scale/bs/poly values are "
     "compared with relative tolerance 1e-9",
+    "the column `ts` (location large compared with its spread: epoch seconds within one hour, a counter "
+    "near 1e8 with spread 10) holds integers, so its sum is exact in every row order and the fitted "
+    "mean / sd of the unchanged library move by ~1e-16 under permutation; scale, standardize, center, "
+    "bs and raw poly are explored on it; the ORTHOGONAL poly(ts, k) is left out for this column: its "
+    "three-term recurrence on the uncentred values (alpha_k = sum(x P_k^2) / sum(P_k^2) with x ~ 1e8) "
+    "moves by up to 2e-8 relative under row permutation on the unchanged library (measured), which is "
+    "conditioning of that algorithm, not a row-order dependence the statement speaks about",
+    "index variants include NAMED indexes: the index carrying the name (and values) of a column the "
+    "formula uses, the name of an unused column, and a two-level MultiIndex with such names, with and "
+    "without missing values in used columns",
 ]
 TRUSTED = ["pandas positional access (.values), np.unique, np.mean/std/percentile"]
 
@@ -24,6 +35,12 @@ CORPUS = ["y ~ f + x", "y ~ scale(x) + bs(z, df=4)", "y ~ center(x):f + (x | g)"
           "1", "I(resp) ~ 1", "I(resp) ~ 0 + offset(2)", "y ~ 1",
           # spline with inner knots from the calling environment, boundary knots from the data
           "y ~ bs(z, knots=kn)", "y ~ bs(z, knots=kn):f + (1 | g)", "y ~ bs(z, knots=kn, degree=2) + x"]
+# stateful / pointwise atoms on the ill-conditioned column `ts` (see ASSUMPTIONS for what is left out)
+TS_ATOMS = ["scale(ts)", "standardize(ts)", "center(ts)", "bs(ts, df=4)", "bs(ts, df=3, degree=2)",
+            "poly(ts, 2, raw=True)", "scale(ts):f", "center(scale(ts))", "standardize(ts):x",
+            "(scale(ts) | g)", "(0 + standardize(ts) | h)"]
+CORPUS += ["y ~ scale(ts)", "y ~ standardize(ts) + f", "y ~ center(ts) + bs(ts, df=4)",
+           "y ~ x + (scale(ts) | g)"]
 # names visible to the formulas of this check only (`resp` is added per frame, row-aligned)
 NAMES = dict(designs.NAMES, kn=[-0.5, 0.5])
 
@@ -90,6 +107,52 @@ def snapshot(formula, df, resp=None):
             "meta": json.dumps(meta, sort_keys=True), "params": params_of(dm)}
 
 
+def add_offset_column(r, df):
+    """`ts`: a numeric column whose location is large compared with its spread.  Integers: every sum
+    of the column is exact whatever the row order (the sum of squares is not)."""
+    n = len(df)
+    if r.random() < 0.6:
+        base, spread = 1_700_000_000 + r.randrange(0, 10 ** 6), 3600      # epoch seconds in one hour
+    else:
+        base, spread = 10 ** 8 + r.randrange(0, 1000), 10                 # a large counter
+    vals = [base + r.randrange(0, spread) for _ in range(n)]
+    if len(set(vals)) < min(n, 6):                                        # enough distinct points for bs
+        vals = [base + (i * 7) % spread for i in range(n)]
+        r.shuffle(vals)
+    df["ts"] = [float(v) for v in vals]
+    return df
+
+
+def used_columns(formula, df):
+    toks = set(re.findall(r"[A-Za-z_][A-Za-z_0-9]*", formula))
+    return [c for c in df.columns if c in toks]
+
+
+def named_index_variants(r, df, formula, which):
+    """the same frame under NAMED indexes: named (and valued) like a column the formula uses, named
+    like a column it does not use, a MultiIndex whose levels carry such names"""
+    n = len(df)
+    used = used_columns(formula, df) or list(df.columns[:3])
+    out = []
+    for kind in which:
+        d = df.copy()
+        col = r.choice(used)
+        if kind == "used":
+            d = d.set_index(col, drop=False)                   # e.g. df.set_index("g", drop=False)
+        elif kind == "unused":
+            d.index = pd.Index([r.randrange(0, max(2, n // 2)) for _ in range(n)], name="unused")
+        elif kind == "multi":
+            other = r.choice([c for c in df.columns if c != col])
+            d.index = pd.MultiIndex.from_arrays([df[col].to_numpy(), df[other].to_numpy()],
+                                                names=[col, other])
+        else:                                                  # "multi2": a used name on the 2nd level
+            labels = list(range(n))
+            r.shuffle(labels)
+            d.index = pd.MultiIndex.from_arrays([labels, df[col].to_numpy()], names=[None, col])
+        out.append(("same", d, None))
+    return out
+
+
 def variants(r, df):
     n = len(df)
     out = []
@@ -129,12 +192,18 @@ def nan_variants(r, df):
     return base, [("same", a, None), ("same", b, None)]
 
 
+# variant numbers: 0-8 `variants`, 9 a named index on the complete frame; 100-101 `nan_variants`,
+# 102-103 named indexes on the frame with missing values
+
+
 def explore(tier, seed, res=None, replay=None):
     res = res or Result()
     res.rule = ("generated designs x (3 row permutations, non-unique string index, unsorted float "
                 "index, reversed column order, 3 extra unused columns incl. an all-NaN one, an unused "
-                "column removed, the unused column with NaN removed); formulas include ones naming no "
-                "frame column and splines with knots from the environment; non-trivial = a pair whose design has a categorical or stateful "
+                "column removed, the unused column with NaN removed, a named index / MultiIndex, and "
+                "missing values in used columns under relabelled and under named indexes); formulas "
+                "include ones naming no frame column, splines with knots from the environment and "
+                "stateful transforms of a column with a large offset relative to its spread; non-trivial = a pair whose design has a categorical or stateful "
                 "atom; distinct by (formula, variant)")
     n_cases = 300 if tier == "quick" else 10000
     cases = []
@@ -152,6 +221,15 @@ def explore(tier, seed, res=None, replay=None):
         formula = f or designs.gen_formula(r, extra=True)
         if f is None and r.random() < 0.12:
             formula += r.choice([" + bs(z, knots=kn)", " + bs(z, knots=kn, degree=2):f"])
+        # additions of this check draw from their own generators (the cases above stay what they were)
+        r2 = rng_for(seed, "c08", path, "extensions")
+        add_offset_column(r2, df)
+        # (drawn unconditionally: a replay, which is given the formula, sees the same variants)
+        u1, a1, u2, a2 = r2.random(), r2.choice(TS_ATOMS), r2.random(), r2.choice(TS_ATOMS[:6])
+        if f is None and u1 < 0.3:
+            formula += " + " + a1 + (" + " + a2 if u2 < 0.2 and a2 != a1 else "")
+        if "ts" in used_columns(formula, df):
+            res.count("formulas with a transform of the large-offset column")
         # a row-aligned array in the calling environment: moves with the rows
         resp = [r.randrange(-9, 10) / 2 for _ in range(len(df))]
         res.evaluations += 1
@@ -160,7 +238,11 @@ def explore(tier, seed, res=None, replay=None):
             res.count("impl_error:" + base["err"])
             continue
         pairs, meta = [], []
-        for k, (rule, d2, sigma) in enumerate(variants(r, df)):
+        kinds = ["used", "unused", "multi", "multi2"]
+        # (time budget of the quick tier: the named index on the complete frame in half of the cases)
+        all_variants = variants(r, df) + named_index_variants(
+            r2, df, formula, [r2.choice(kinds)] if (tier != "quick" or r2.random() < 0.5) else [])
+        for k, (rule, d2, sigma) in enumerate(all_variants):
             other = snapshot(formula, d2, [resp[i] for i in sigma] if sigma else resp)
             if "err" in other:
                 res.failures.append({"case": {"formula": formula, "seed_path": path, "variant": k},
@@ -179,6 +261,10 @@ def explore(tier, seed, res=None, replay=None):
             res.nontrivial.add((formula, path, k))
         # missing values + relabelled indexes
         nbase_df, nvars = nan_variants(r, df)
+        nvars = nvars + named_index_variants(
+            r2, nbase_df, formula, [r2.choice(["used", "multi", "multi2"])] + (
+                [r2.choice(["unused", "multi", "used"])] if (tier != "quick" or r2.random() < 0.5)
+                else []))
         nbase = snapshot(formula, nbase_df, resp)
         if "err" not in nbase:
             for k, (rule, d2, sigma) in enumerate(nvars, start=100):
@@ -186,7 +272,7 @@ def explore(tier, seed, res=None, replay=None):
                 if "err" in other:
                     res.failures.append({"case": {"formula": formula, "seed_path": path, "variant": k},
                                          "impl": other, "expected": "same design", "finding": None,
-                                         "why": f"variant {k} (missing values, relabelled index) raises "
+                                         "why": f"variant {k} (missing values, relabelled / named index) raises "
                                                 f"{other['err']}"})
                     continue
                 for part in ("response", "common", "group"):
